@@ -3,6 +3,8 @@
 use hcommon::Report;
 
 mod breaker;
+mod node;
+mod reads;
 mod watermark;
 
 fn main() {
@@ -13,6 +15,7 @@ fn main() {
     let mut rep = Report::new();
     let rt = tokio::runtime::Builder::new_multi_thread().worker_threads(4).enable_all().build().unwrap();
     match args[1].as_str() {
+        "reads" => rt.block_on(reads::reads_cmd(&mut rep, &args[2], args[3].parse().unwrap())),
         "watermark" => rt.block_on(watermark::watermark_cmd(&mut rep, &args[2])),
         "breaker" => breaker::breaker_cmd(&mut rep, &args[2], &args[3], args.get(4).map(|s| s.as_str()).unwrap_or("conform")),
         other => panic!("unknown subcommand {other}"),
